@@ -81,6 +81,24 @@ def dict_tok(t):
     return d
 
 
+def container(lst, salt):
+    """a group / list argument in one of the container types the API accepts (list, tuple, set, frozenset); chosen by the content so
+    that a run is reproducible; anything unhashable stays a list"""
+    if not isinstance(lst, list):
+        return lst
+    k = (len(lst) + salt) % 4
+    try:
+        return [lst, tuple(lst), set(lst), frozenset(lst)][k] if len(set(lst)) == len(lst) or k < 2 else tuple(lst)
+    except TypeError:
+        return tuple(lst) if k % 2 else lst
+
+
+def truthy(salt):
+    """the flag `True` as the caller may pass it: True, 1 or a NumPy bool"""
+    import numpy as np
+    return [True, 1, np.True_, True][salt % 4]
+
+
 def ival(tok, salt):
     """an integer argument: a Python int, or (for a third of the calls, chosen by the arguments themselves so that a run is
     reproducible) a NumPy integer - the API accepts both"""
@@ -102,7 +120,7 @@ def query(sp, name, args):
     if name == "dmax":
         return num(sp.get_deltaMax())
     if name == "dmaxperm":
-        r = sp.get_deltaMax(True)
+        r = sp.get_deltaMax(truthy(len(sp))) if len(sp) % 2 else sp.get_deltaMax(returnSeqDeltaMax=truthy(len(sp) // 2))
         return ("perm", float(r[0]), r[1])
     if name == "sigma":
         return num(sp.SeqObj.sigma())
@@ -114,8 +132,8 @@ def query(sp, name, args):
     if name == "omegaseq":
         return ("str", sp.get_Omega_sequence())
     if name == "kappaX":
-        g1 = parse_group_tok(args[0])
-        g2 = parse_group_tok(args[1])
+        g1 = container(parse_group_tok(args[0]), len(sp))
+        g2 = container(parse_group_tok(args[1]), len(sp) + 1)
         return num(sp.get_kappa_X(g1, g2))
     if name == "region":
         return ("int", int(sp.get_phasePlotRegion()))
@@ -205,7 +223,7 @@ def query(sp, name, args):
         # a token without "/" is passed as a Python int, "n/1" as a float
         pH = int(n) if "/" not in args[1] else float(int(n)) / float(int(d))
         f = {"ncpr": sp.get_NCPR, "fcr": sp.get_FCR, "mnc": sp.get_mean_net_charge, "fer": sp.get_fraction_expanding}[args[0]]
-        return num(f(pH))
+        return num(f(pH) if (len(sp) + int(n)) % 2 else f(pH=pH))
     if name == "pisound":
         pi = sp.get_isoelectric_point()
         c = sp.SeqObj.charge_at_pH(pi, normalize=True)
